@@ -737,7 +737,7 @@ pub fn case(cfg: &CaseCfg) -> BoxedStrategy<Case> {
           }
         }
       }
-      Case { root, hots: kinds, hot_illformed: cfg.gen.ill_formed, conn: None, conn_take: None, recorders, actions }
+      Case { root, hots: kinds, hot_illformed: cfg.gen.ill_formed, conn: None, conn_take: None, conn_take_only: None, recorders, actions }
     })
     .boxed()
 }
